@@ -92,27 +92,31 @@ theorem wrP_post (vm : Vm) (hs : StackOk vm) (i : Int) (s : Slot) (h0 : 0 ≤ i)
 
 theorem markP_spec (vm : Vm) (retAddr : Nat) (hs : StackOk vm) (h0 : -1 ≤ vm.sp) (h1 : vm.sp + 5 < vm.stackSize) :
     ∃ vm', markP vm retAddr = .ok vm' ∧ MarkPost vm vm' retAddr := by
-  obtain ⟨v5, e5, p5⟩ := wrP_post vm hs (vm.sp + 5) (.ip retAddr) (by omega) h1
-  obtain ⟨v4, e4, p4⟩ := wrP_post v5 p5.ok (vm.sp + 4) (.stk vm.fp) (by omega) (by rw [p5.size]; omega)
-  obtain ⟨v3, e3, p3⟩ := wrP_post v4 p4.ok (vm.sp + 3) (.addr vm.gp) (by omega) (by rw [p4.size, p5.size]; omega)
-  obtain ⟨v2, e2, p2⟩ := wrP_post v3 p3.ok (vm.sp + 2) (.ip vm.line) (by omega) (by rw [p3.size, p4.size, p5.size]; omega)
-  obtain ⟨v1, e1, p1⟩ := wrP_post v2 p2.ok (vm.sp + 1) (.stk vm.pp) (by omega) (by rw [p2.size, p3.size, p4.size, p5.size]; omega)
+  let v0 : Vm := { vm with sp := vm.sp + 5 }
+  have hck := checkP_ok (vm := v0) (by show vm.sp + 5 < vm.stackSize; exact h1)
+  have hs0 : StackOk v0 := hs
+  obtain ⟨v5, e5, p5⟩ := wrP_post v0 hs0 (vm.sp + 5) (.ip retAddr) (by omega) h1
+  obtain ⟨v4, e4, p4⟩ := wrP_post v5 p5.ok (vm.sp + 4) (.stk vm.fp) (by omega) (by rw [p5.size]; show vm.sp + 4 < vm.stackSize; omega)
+  obtain ⟨v3, e3, p3⟩ := wrP_post v4 p4.ok (vm.sp + 3) (.addr vm.gp) (by omega) (by rw [p4.size, p5.size]; show vm.sp + 3 < vm.stackSize; omega)
+  obtain ⟨v2, e2, p2⟩ := wrP_post v3 p3.ok (vm.sp + 2) (.ip vm.line) (by omega) (by rw [p3.size, p4.size, p5.size]; show vm.sp + 2 < vm.stackSize; omega)
+  obtain ⟨v1, e1, p1⟩ := wrP_post v2 p2.ok (vm.sp + 1) (.stk vm.pp) (by omega) (by rw [p2.size, p3.size, p4.size, p5.size]; show vm.sp + 1 < vm.stackSize; omega)
   have hsz : v1.stackSize = vm.stackSize := by rw [p1.size, p2.size, p3.size, p4.size, p5.size]
-  have hck := checkP_ok (vm := { v1 with fp := vm.sp + 5, sp := vm.sp + 5 }) (by show vm.sp + 5 < v1.stackSize; rw [hsz]; exact h1)
-  refine ⟨{ v1 with fp := vm.sp + 5, sp := vm.sp + 5 }, ?_, ?_⟩
+  refine ⟨{ v1 with fp := vm.sp + 5 }, ?_, ?_⟩
   · unfold markP
     dsimp only [bind, Except.bind]
+    rw [hck]; dsimp only
     rw [e5]; dsimp only
     rw [e4]; dsimp only
     rw [e3]; dsimp only
     rw [e2]; dsimp only
-    rw [e1]; dsimp only
-    exact hck
-  · have kk : ∀ j, slot ({ v1 with fp := vm.sp + 5, sp := vm.sp + 5 } : Vm) j = slot v1 j := fun j => rfl
+    rw [e1]
+  · have kk : ∀ j, slot ({ v1 with fp := vm.sp + 5 } : Vm) j = slot v1 j := fun j => rfl
+    have s0 : ∀ j, slot v0 j = slot vm j := fun j => rfl
     have all : ∀ j, slot v1 j = if j = vm.sp + 1 then .stk vm.pp else if j = vm.sp + 2 then .ip vm.line else
         if j = vm.sp + 3 then .addr vm.gp else if j = vm.sp + 4 then .stk vm.fp else if j = vm.sp + 5 then .ip retAddr else slot vm j := by
-      intro j; rw [p1.slots, p2.slots, p3.slots, p4.slots, p5.slots]
-    refine ⟨rfl, rfl, ?_, ?_, ?_, hsz, p1.ok, ?_, ?_, ?_, ?_, ?_, ?_, ?_, ?_⟩
+      intro j; rw [p1.slots, p2.slots, p3.slots, p4.slots, p5.slots, s0]
+    have hsp : v1.sp = vm.sp + 5 := by rw [p1.sp, p2.sp, p3.sp, p4.sp, p5.sp]
+    refine ⟨hsp, rfl, ?_, ?_, ?_, hsz, p1.ok, ?_, ?_, ?_, ?_, ?_, ?_, ?_, ?_⟩
     · show v1.pp = vm.pp; rw [p1.pp, p2.pp, p3.pp, p4.pp, p5.pp]
     · show v1.gp = vm.gp; rw [p1.gp, p2.gp, p3.gp, p4.gp, p5.gp]
     · show v1.ip = vm.ip; rw [p1.ip, p2.ip, p3.ip, p4.ip, p5.ip]
@@ -136,10 +140,19 @@ theorem markP_spec (vm : Vm) (retAddr : Nat) (hs : StackOk vm) (h0 : -1 ≤ vm.s
       · show v1.out = vm.out; rw [p1.run.2.2.1, p2.run.2.2.1, p3.run.2.2.1, p4.run.2.2.1, p5.run.2.2.1]
       · show v1.line = vm.line; rw [p1.run.2.2.2, p2.run.2.2.2, p3.run.2.2.2, p4.run.2.2.2, p5.run.2.2.2]
 
-/-- MARK does not report a stack that is too small: its first write already lands outside -/
+/-- MARK on a stack that is too small: reported BEFORE any write (since the `fix:` commit b857a09) -/
 theorem markP_overflow (vm : Vm) (retAddr : Nat) (h : vm.sp + 5 ≥ vm.stackSize) :
-    markP vm retAddr = .error (.crash "stack write out of bounds") := by
+    ∃ t, markP vm retAddr = .error (.exit "stack too large" t) := by
+  obtain ⟨t, ht⟩ := checkP_exit (vm := { vm with sp := vm.sp + 5 }) (by show vm.sp + 5 ≥ vm.stackSize; exact h)
+  refine ⟨t, ?_⟩
   unfold markP
+  dsimp only [bind, Except.bind]
+  rw [ht]
+
+/-- the pinned MARK did not report a stack that is too small: its first write already landed outside -/
+theorem markPinnedP_overflow (vm : Vm) (retAddr : Nat) (h : vm.sp + 5 ≥ vm.stackSize) :
+    markPinnedP vm retAddr = .error (.crash "stack write out of bounds") := by
+  unfold markPinnedP
   dsimp only [bind, Except.bind]
   rw [wrP_oob (vm := vm) (i := vm.sp + 5) (s := .ip retAddr) (Or.inr h)]
 
